@@ -72,6 +72,8 @@ let () =
           let sk_next = (match List.rev m.m_payloads with PSK (nx, _) :: _ -> nx | _ -> N0) in
           L [A "ok"; sx_hex (wenc { wm_hdr = whdr m.m_hdr; wm_payloads = ps; wm_sk_next = sk_next })]
         with Not_encodable _ -> A "err") | _ -> failwith "args");
+  (* membership in the domain the round-trip theorems quantify over (Thm/DomainB.dom_msgb, proved sound) *)
+  reg "in_domain" (function [m] -> guard_setter (fun () -> A (if dom_msgb (msg_of_sx m) then "1" else "0")) | _ -> failwith "args");
   (* (spec_parse xoctets) : strict parse; (ok canonical <msg>) | reject *)
   reg "spec_parse" (function [b] ->
       (match wparse (hex_atom b) with
